@@ -74,8 +74,10 @@ func (g Gateway) Lock(ctx context.Context, in *hydrapb.LockRequest) (*hydrapb.Lo
 	// try to summon the swamp
 	lockerInterface := g.ZeusInterface.GetHydra().GetLocker()
 
-	// create a new context
-	ctxForLocker := context.WithoutCancel(ctx)
+	// the locker waits on the caller's context: when the caller gives up (deadline, cancellation) the request leaves
+	// the queue and fails with DeadlineExceeded. (It used to wait on context.WithoutCancel(ctx): a request for a held
+	// key could not be ended by its caller, and the lock it was granted later belonged to nobody until its TTL.)
+	ctxForLocker := ctx
 
 	// Set the TTL to the required minimum value if it is less than or equal to 1000 milliseconds
 	if in.GetTTL() <= 1000 {
